@@ -201,7 +201,9 @@ class BitStringPayloadDecoder(AbstractSimplePayloadDecoder):
 
             return
 
-        if not length and not isFragment:
+        if (not length and not isFragment and
+                tagSet[0].tagFormat == tag.tagFormatSimple):
+            # (a constructed encoding may hold no fragment at all)
             raise error.PyAsn1Error('Empty BIT STRING substrate')
 
         if tagSet[0].tagFormat == tag.tagFormatSimple:  # XXX what tag to check?
